@@ -41,7 +41,8 @@ unsigned int g_last_head_value; _Bool g_loaded_head;
 unsigned g_pops, g_pushes, g_mints;
 _Bool g_quiet;                /* no other thread runs (sequential case of the property) */
 _Bool g_took;
-static void vf_havoc_ghosts(void) {
+static void vf_havoc_ghosts2(void);
+static void vf_havoc_ghosts(void) { vf_havoc_ghosts2();
   g_fv = nondet_u32(); g_cell = nondet_u32(); g_in = nondet_bool(); g_held = nondet_bool(); g_maxver = nondet_long(); g_quiet = nondet_bool();
   g_slot.version = nondet_u32(); g_loaded_head = 0; g_pops = g_pushes = g_mints = 0; g_took = 0;
 }
@@ -225,9 +226,61 @@ __CPROVER_ensures(VAL(__CPROVER_return_value) == g_fv ==> (long)VER(__CPROVER_re
 __CPROVER_ensures(B_INV)
 ;
 /* finish_released(id): returns the slot's value to the allocator (deallocate's precondition: the caller owns it) */
+unsigned g_fin_calls; struct Box *g_fin_box; unsigned long g_fin_id;
 void Box_finish_released(struct Box *b, VV_t id)
+#ifdef VF_ENFORCE_Box_Accessor_dtor      /* as a callee of ~Accessor only the call itself matters */
+__CPROVER_requires(1)
+__CPROVER_assigns(g_fin_calls, g_fin_box, g_fin_id)
+__CPROVER_ensures(g_fin_calls == __CPROVER_old(g_fin_calls) + 1 && g_fin_box == b && g_fin_id == id.__anon_L22.version_and_value)
+#else
 __CPROVER_requires(BOX_SHAPE(b) && VAL(id) < ACTIVE && (VAL(id) != g_fv || g_held) && (VAL(id) == g_fv || !g_held))
 __CPROVER_assigns(A_ASSIGNS(&b->_slot_id_allocator))
 __CPROVER_ensures(g_pushes == 1 && (VAL(id) == g_fv ==> !g_held))
+#endif
 ;
+/* ---- DepositBox::Accessor (the RAII form of take): exactly one accessor of a take finishes the slot.
+ * Move construction empties the source, move assignment swaps, the destructor finishes the slot iff it still holds the object. */
+#define ACC_ID(a) ((a)->_id.__anon_L22.version_and_value)
+void Box_Accessor_ctor__AccessorR(struct Box_Accessor *self, struct Box_Accessor *other)
+__CPROVER_requires(__CPROVER_is_fresh(self, sizeof(*self)) && __CPROVER_is_fresh(other, sizeof(*other)))
+__CPROVER_assigns(self->_box, self->_object, self->_id, other->_object)
+__CPROVER_ensures(self->_box == __CPROVER_old(other->_box) && self->_object == __CPROVER_old(other->_object) && ACC_ID(self) == ACC_ID(other))
+__CPROVER_ensures(other->_object == (struct Item *)0)
+;
+struct Box_Accessor *Box_Accessor_op_assign__AccessorR(struct Box_Accessor *self, struct Box_Accessor *other)
+__CPROVER_requires(__CPROVER_is_fresh(self, sizeof(*self)) && __CPROVER_is_fresh(other, sizeof(*other)))
+__CPROVER_assigns(self->_box, self->_object, self->_id, other->_box, other->_object, other->_id)
+__CPROVER_ensures(__CPROVER_return_value == self)
+__CPROVER_ensures(self->_box == __CPROVER_old(other->_box) && self->_object == __CPROVER_old(other->_object) && other->_box == __CPROVER_old(self->_box) && other->_object == __CPROVER_old(self->_object))
+__CPROVER_ensures(ACC_ID(self) == __CPROVER_old(other->_id.__anon_L22.version_and_value) && ACC_ID(other) == __CPROVER_old(self->_id.__anon_L22.version_and_value))
+;
+void Box_Accessor_dtor(struct Box_Accessor *self)
+__CPROVER_requires(__CPROVER_is_fresh(self, sizeof(*self)) && g_fin_calls == 0)
+__CPROVER_assigns(g_fin_calls, g_fin_box, g_fin_id)
+__CPROVER_ensures(g_fin_calls == (self->_object != (struct Item *)0 ? 1u : 0u))
+__CPROVER_ensures(g_fin_calls == 1 ==> (g_fin_box == self->_box && g_fin_id == ACC_ID(self)))
+;
+/* ---- ThreadIdImpl<Leaky> (one object per thread, thread_local): the id is allocated once at thread birth and given back once at
+ * thread exit, for both flavours (Leaky only changes whether the allocator *singleton* is ever destroyed) */
+unsigned g_tid_alloc, g_tid_dealloc; unsigned int g_tid_val, g_tid_freed; void *g_tid_from;
+static void vf_havoc_ghosts2(void) { g_fin_calls = 0; g_tid_alloc = 0; g_tid_dealloc = 0; }
+struct VersionedValue_L_unsigned_short_R IdAllocator_L_unsigned_short_R_allocate(struct IdAllocator_L_unsigned_short_R *a) {
+  struct VersionedValue_L_unsigned_short_R r; r.__anon_L22.version_and_value = nondet_u32(); g_tid_val = r.__anon_L22.version_and_value; g_tid_alloc++; g_tid_from = a; return r;
+}
+void IdAllocator_L_unsigned_short_R_deallocate(struct IdAllocator_L_unsigned_short_R *a, struct VersionedValue_L_unsigned_short_R id) {
+  g_tid_freed = id.__anon_L22.version_and_value; g_tid_dealloc++; g_tid_from = a;
+}
+#define TID_CONTRACTS(T) \
+void T##_ctor__IdAllocator_L_unsigned_short_RR(struct T *self, struct IdAllocator_L_unsigned_short_R *allocator) \
+__CPROVER_requires(__CPROVER_is_fresh(self, sizeof(*self)) && g_tid_alloc == 0) \
+__CPROVER_assigns(self->_allocator, self->_value, g_tid_alloc, g_tid_val, g_tid_from) \
+__CPROVER_ensures(g_tid_alloc == 1 && g_tid_from == allocator && self->_allocator == allocator && self->_value.__anon_L22.version_and_value == g_tid_val) \
+; \
+void T##_dtor(struct T *self) \
+__CPROVER_requires(__CPROVER_is_fresh(self, sizeof(*self)) && g_tid_dealloc == 0) \
+__CPROVER_assigns(g_tid_dealloc, g_tid_freed, g_tid_from) \
+__CPROVER_ensures(g_tid_dealloc == 1 && g_tid_from == self->_allocator && g_tid_freed == self->_value.__anon_L22.version_and_value) \
+;
+TID_CONTRACTS(internal_ThreadIdImpl_L_1_R)
+TID_CONTRACTS(internal_ThreadIdImpl_L_0_R)
 #endif
